@@ -79,10 +79,10 @@ def load_reviewed():
         if line.startswith("#") or not line.strip():
             continue
         parts = line.rstrip("\n").split("\t")
-        while len(parts) < 5:
+        while len(parts) < 6:
             parts.append("")
-        fn_, kind, sig, requires, why = parts[:5]
-        out[(fn_, kind, sig)] = (requires, why)
+        fn_, kind, sig, requires, why, callers = parts[:6]
+        out[(fn_, kind, sig)] = (requires, why, callers)
     return out
 
 
@@ -384,7 +384,20 @@ def r1(ctx):
             counts[key] = counts.get(key, 0) + 1
             ent = reviewed.get(key)
             if ent is not None:
-                requires, why = ent
+                requires, why, callers_rx = ent
+                if callers_rx:
+                    # the invariant is an argument about who calls this function: the caller set is frozen
+                    tail = p.split("::")[-1]
+                    decl = None
+                    for im in prog.impls:
+                        for nm_, ip_, tg_ in im["items"]:
+                            if ip_ == p and im.get("trait"):
+                                decl = im["trait"] + "::" + nm_
+                    who = {c_[0] for c_ in cg.callers_of(lambda c_, p=p, decl=decl: c_ == p or (decl is not None and c_ == decl)) if "::tests::" not in c_[0]}
+                    badc = sorted(w for w in who if not re.search(callers_rx, w))
+                    if badc:
+                        ctx.bad("site@%s|%s|%s" % key, "reviewed invariant rests on the caller set /%s/ but it is also called from %s" % (callers_rx, [short(x) for x in badc]), bd.where(blk.idx))
+                        continue
                 if requires:
                     gs = " ; ".join(repr(g) for g in ctx.guards_at(bd, blk.idx))
                     if not re.search(requires, gs):
